@@ -368,3 +368,41 @@ def no_self_capture(ctx, rule):
     cm = control_model("def f(p):\n    if not callable(p):\n        p = lambda a: p\n    return p(1)\n")
     ctx.control(rule + " self-capture", any(r for _, _, _, r in self_capturing_closures(cm)), "(late-binding lambda)")
     return n
+
+
+def none_or_equal_cases(guards, obj, value):
+    """Which of the four cases (obj is None?, obj == value?) satisfy all guards that speak about them: guards of the forms `obj is (not) None`,
+    `obj ==/!= value`, `obj (not) in (None, value)` and not/and/or combinations are evaluated, anything else is ignored (treated as true).
+    Returns the set of feasible (is_none, equals) pairs."""
+    import itertools
+    none = N.NONE
+
+    def ev(c, a, b):
+        if c[0] == "cmp":
+            op, l, r = c[1], c[2], c[3]
+            if {l, r} == {obj, none} and op in ("is", "==", "is not", "!="):
+                return a if op in ("is", "==") else (not a)
+            if {l, r} == {obj, value} and op in ("==", "!="):
+                return b if op == "==" else (not b)
+            if op in ("in", "not in") and l == obj and r[0] in ("tuple", "list") and set(r[1]) <= {none, value}:
+                inside = (a and none in r[1]) or (b and value in r[1])
+                return inside if op == "in" else (not inside)
+            return None
+        if c[0] == "not":
+            v = ev(c[1], a, b)
+            return None if v is None else (not v)
+        if c[0] == "bool":
+            vals = [ev(x, a, b) for x in c[2]]
+            if c[1] == "and":
+                if any(v is False for v in vals):
+                    return False
+                return None if any(v is None for v in vals) else True
+            if any(v is True for v in vals):
+                return True
+            return None if any(v is None for v in vals) else False
+        return None
+    out = set()
+    for a, b in itertools.product((False, True), repeat=2):
+        if all(ev(g, a, b) is not False for g in guards):
+            out.add((a, b))
+    return out
